@@ -175,8 +175,11 @@ class MoveMemrefDims(RewritePattern):
 
         def memref_op_outside_loop(memref_op: Operation | Block, index: int) -> bool:
             if isinstance(memref_op, Block):
-                # This happens when the dim is called on an input argument
-                return True
+                # This happens when the dim is called on an input argument.
+                # A block argument of the loop itself (or of a block inside it) is not available before the loop.
+                loop = find_parent_for_loop(dim_op)
+                arg_parent = memref_op.parent_op()
+                return loop is not None and arg_parent is not None and not loop.is_ancestor(arg_parent)
             if isinstance(memref_op, memref.SubviewOp):
                 subview_size = get_subview_dim(memref_op, index)
                 if isinstance(subview_size, int):
